@@ -137,4 +137,21 @@ example : EdgesOK tri := by
   intro e he; simp [tri] at he
   rcases he with rfl | rfl | rfl <;> exact ⟨_, _, rfl, by decide, by decide, by decide⟩
 
+/-! ### The hypothesis `h = 0 ∨ |h| > 2^-52` is necessary (finding F24)
+
+The library tests `longitudinal.abs() > f64::EPSILON` — an ABSOLUTE threshold — to decide whether field bonds exist.
+At the excluded point the identity `Σ_b M_b = C·1 − H` fails, in the model and (replayed by the harness, mode
+`fieldwit`) in the real code: in small energy units (`J = Γ = 2^-56`, `h = 2^-57`, so that `β·h` is of order 1 at
+`β ≈ 2^56`) the sampler has no field bonds at all and samples the `h = 0` model. -/
+
+def tinyFieldModel : IsingModel :=
+  { edges := [([0, 1], (1 : Rat) / 72057594037927936)], transverse := (1 : Rat) / 72057594037927936,
+    longitudinal := (1 : Rat) / 144115188075855872, nvars := 2 }
+
+theorem field_threshold_witness :
+    tinyFieldModel.longitudinal ≠ 0 ∧ tinyFieldModel.hasField = false ∧ tinyFieldModel.numBonds = 3 ∧
+    totalEntry (isingHam tinyFieldModel) [true, true] [true, true]
+      ≠ tinyFieldModel.offset - Ecl tinyFieldModel [true, true] := by
+  refine ⟨?_, ?_, ?_, ?_⟩ <;> decide +kernel
+
 end Qmc.C01
